@@ -15,6 +15,7 @@ import PgProofs.Gen
 import PgProofs.GenEvo
 import PgProofs.GenEvoPop
 import PgProofs.GenDedupEvo
+import PgProofs.GenEvoGen
 namespace Pg.C15
 
 /-- Generated obligation: the current source has the repaired shape of `Deduping.recover/_replay`
@@ -393,6 +394,120 @@ theorem C15_F36_counterexample_pinned :
 
 example : IsBase (.random 3 false) := Or.inr ⟨3, false, rfl⟩
 example : (runLive (f35Env .patched) f35Algo f35Run).st.nf = 4 := by decide
+
+/-- Exclusion predicate of the generation-counter theorem (finding F37): the live instance switched
+to the evolving phase (`num_generations = 1`) although no evolved individual was ever proposed and the
+history does not show a complete initial population — which happens only when `_evolve` raised inside
+the `propose` that made the switch (a failed `propose` leaves no trace in the history). -/
+def F37State (sz : Option Nat) (l : Live) : Prop :=
+  ∃ np nf si pop pend, l.st = .evolution np nf si true 1 pop pend ∧ NoNonInit l.hist ∧ doneInit sz l.hist = false
+
+/-- FULL statement: Evolution recovers counters, population AND generation counter. -/
+def C15_recover_evolution_generations_Full (env : Env) : Prop :=
+  ∀ (init : Algo), IsBase init → ∀ (sz : Option Nat), sz ≠ some 0 → ∀ (run : List Event),
+    ∃ np nf g pop si ini pend si' ini' pend',
+      (runLive env (.evolution init sz) run).st = .evolution np nf si ini g pop pend
+      ∧ recover env (.evolution init sz) (setup (.evolution init sz)) (runLive env (.evolution init sz) run).hist
+          = .ok (.evolution np nf si' ini' g pop pend')
+
+/-- PARTIAL (repaired source; initial size ≥ 1 or none): for every run that does not end in the F37
+state, the recovered instance has the counters, the population and the `num_generations` of the
+uninterrupted one. -/
+theorem C15_recover_evolution_generations_partial (env : Env) (hq : env.q = Quirks.patched) (init : Algo)
+    (hb : IsBase init) (sz : Option Nat) (hsz : sz ≠ some 0) (run : List Event)
+    (hex : ¬ F37State sz (runLive env (.evolution init sz) run)) :
+    ∃ np nf g pop si ini pend si' ini' pend',
+      (runLive env (.evolution init sz) run).st = .evolution np nf si ini g pop pend
+      ∧ recover env (.evolution init sz) (setup (.evolution init sz)) (runLive env (.evolution init sz) run).hist
+          = .ok (.evolution np nf si' ini' g pop pend') := by
+  obtain ⟨si, ini, g, pop, pend, hst, _, hent, hpop, _, _⟩ := live_evolution_pop env init hb sz run
+  obtain ⟨np2, si2, ini2, g2, pop2, pend2, hst2, _, _, hle, hb0, hb1⟩ := live_evolution_gen env init hb sz hsz run
+  rw [hst] at hst2
+  injection hst2 with _ _ _ hini hg _ _
+  subst hini; subst hg
+  have hg' : env.q.evoInitGenBump = false := by rw [hq]; rfl
+  have ho : env.q.evoProposalOrder = false := by rw [hq]; rfl
+  obtain ⟨si', hrec⟩ := recover_evolution_full env hg' ho init hb sz _ hent
+  rw [hpop] at hrec
+  refine ⟨_, _, g, pop, si, ini, pend, si', doneInit sz (runLive env (.evolution init sz) run).hist, [], hst, ?_⟩
+  rw [hrec]
+  -- it remains to show that the recovered generation counter is `g`
+  have hup := gFold_upper (sortByFeedback (runLive env (.evolution init sz) run).hist) 0
+  have hat := gFold_attained (sortByFeedback (runLive env (.evolution init sz) run).hist) 0
+  generalize (sortByFeedback (runLive env (.evolution init sz) run).hist).foldl gStep 0 = G at hup hat ⊢
+  have hgeq : (if (doneInit sz (runLive env (.evolution init sz) run).hist && decide (G = 0)) = true then 1 else G) = g := by
+    cases ini with
+    | false =>
+      obtain ⟨hg0, _, hno, hlt⟩ := hb0 rfl
+      have hG : G = 0 := by
+        rcases hat with h | ⟨e, he, hn, _⟩
+        · exact h
+        · exact absurd hn (hno e ((mem_sortByFeedback e _).mp he))
+      have hdone : doneInit sz (runLive env (.evolution init sz) run).hist = false :=
+        doneInit_false_of_lt sz _ hlt
+      simp [hG, hdone, hg0]
+    | true =>
+      obtain ⟨hg1, hc⟩ := hb1 rfl
+      rcases hc with ⟨e, he, hn, hge⟩ | ⟨h1, hno⟩
+      · have h1 : g ≤ G := by
+          rw [← hge]; exact hup e ((mem_sortByFeedback e _).mpr he) hn
+        have h2 : G ≤ g := by
+          rcases hat with h | ⟨e', he', hn', hg'⟩
+          · omega
+          · rw [← hg']; exact hle e' ((mem_sortByFeedback e' _).mp he') hn'
+        have : G ≠ 0 := by omega
+        simp [this]; omega
+      · have hG : G = 0 := by
+          rcases hat with h | ⟨e, he, hn, _⟩
+          · exact h
+          · exact absurd hn (hno e ((mem_sortByFeedback e _).mp he))
+        have hdone : doneInit sz (runLive env (.evolution init sz) run).hist = true := by
+          cases hd : doneInit sz (runLive env (.evolution init sz) run).hist with
+          | true => rfl
+          | false =>
+            exfalso
+            apply hex
+            exact ⟨(runLive env (.evolution init sz) run).hist.length,
+              fedCount (runLive env (.evolution init sz) run).hist, si, pop, pend, by rw [hst, h1], hno, hd⟩
+        simp [hG, hdone, h1]
+  rw [hgeq]
+
+/-- F37 (also on the repaired source): the sweeping initialiser is exhausted after 3 proposals, the
+4th `propose` switches to the evolving phase and then raises (empty population). -/
+def f37Env : Env :=
+  { space := [0, 1, 2], draw := fun _ _ => 0, hash := fun _ d => d,
+    repro := fun pop _ step => if pop.isEmpty then [] else [step % 3], update := fun p _ => p, q := .patched }
+
+theorem C15_F37_counterexample :
+    popSummary (.ok (runLive f37Env (.evolution .sweeping none) [.propose, .propose, .propose, .propose]).st)
+      = some (1, [])
+    ∧ popSummary (recover f37Env (.evolution .sweeping none) (setup (.evolution .sweeping none))
+        (runLive f37Env (.evolution .sweeping none) [.propose, .propose, .propose, .propose]).hist) = some (0, []) := by
+  decide
+
+theorem C15_recover_evolution_generations_Full_false : ¬ C15_recover_evolution_generations_Full f37Env := by
+  intro h
+  obtain ⟨np, nf, g, pop, si, ini, pend, si', ini', pend', h1, h2⟩ :=
+    h .sweeping (Or.inl rfl) none (by simp) [.propose, .propose, .propose, .propose]
+  have e1 := C15_F37_counterexample.1
+  have e2 := C15_F37_counterexample.2
+  rw [h1] at e1
+  rw [h2] at e2
+  simp only [popSummary, Option.some.injEq, Prod.mk.injEq] at e1 e2
+  omega
+
+/-- Non-vacuity: an ordinary run (two initial proposals, feedback, evolution, a child in flight) is
+not in the excluded state. -/
+example : ¬ F37State (some 1) (runLive (f35Env .patched) f35Algo f35Run) := by
+  rintro ⟨np, nf, si, pop, pend, h, _, _⟩
+  have : popSummary (.ok (runLive (f35Env .patched) f35Algo f35Run).st) = some (1, pop.map fun it => (it.dna, it.reward)) := by
+    rw [h]; rfl
+  revert this
+  generalize pop.map (fun it => (it.dna, it.reward)) = x
+  intro this
+  have h2 : (popSummary (.ok (runLive (f35Env .patched) f35Algo f35Run).st)).map (·.1) = some 4 := by decide
+  rw [this] at h2
+  simp at h2
 
 /-! ### Deduping over Evolution (the configuration of finding F22), repaired source -/
 
